@@ -91,21 +91,22 @@ Definition mux (w : nat) : res Circuit :=
 
 (* ---- popcount: queue of bit vectors, pairwise added ---- *)
 Definition pad (aw : nat) (l : list string) : list string := l ++ replicate (aw - length l) "tie0".
-(* add_subcircuit(adder(aw, carry_out=True), p); relabel p_cout -> p_out_aw; connect ns[j] -> p_a_j, ms[j] -> p_b_j.
-   Node by node on the adder's list: prefix the name, inputs become buffers driven by the connected net,
-   output marks are dropped *)
+(* add_subcircuit(adder(aw, carry_out=True), p); relabel p_cout -> p_out_aw; connect ns[j] -> p_a_j, ms[j] -> p_b_j:
+   the adder's node list (see adder_l / adder_slice above) under the instance naming, operand inputs turned into
+   buffers driven by the connected nets, all output marks dropped, cin a constant 0 *)
 Definition pc_name (p : string) (aw : nat) (n : string) : string :=
   if bool_decide (n = "cout") then pre p (bitname "out_" aw) else pre p n.
-Definition pc_driver (ns ms : list string) (aw : nat) (n : string) : gset string :=
-  list_to_set (omap (λ j, if bool_decide (n = bitname "a_" j) then ns !! j
-                           else if bool_decide (n = bitname "b_" j) then ms !! j else None) (seq 0 aw)).
-Definition pc_node (p : string) (aw : nat) (ns ms : list string) (ni : string * ninfo) : string * ninfo :=
-  (pc_name p aw ni.1,
-   {| n_ty := if bool_decide (n_ty ni.2 = Input) then Buf else n_ty ni.2;
-      n_out := false;
-      n_fi := set_map (pc_name p aw) (n_fi ni.2) ∪ pc_driver ns ms aw ni.1 |}).
+Definition pc_slice (q : string → string) (na nb : string) (i : nat) : list (string * ninfo) :=
+  let p := bitname "fa_" i in
+  [ nd (q (bitname "a_" i)) Buf false [na]; nd (q (bitname "b_" i)) Buf false [nb];
+    nd (q (bitname "out_" i)) Buf false [q (pre p "s")];
+    nd (q (pre p "x")) Buf false [q (bitname "a_" i)]; nd (q (pre p "y")) Buf false [q (bitname "b_" i)];
+    nd (q (pre p "cin")) Buf false [q (carry_name i)] ]
+  ++ fa_core (λ s, q (pre p s)) false.
 Definition pc_adder (p : string) (aw : nat) (ns ms : list string) : list (string * ninfo) :=
-  pc_node p aw ns ms <$> adder_l aw false true.
+  let q := pc_name p aw in
+  nd (q "cin") C0 false [] :: flat_map (λ i, pc_slice q (ns !!! i) (ms !!! i) i) (seq 0 aw)
+  ++ [nd (q "cout") Buf false [q (carry_name aw)]].
 
 Fixpoint popcount_loop (fuel i : nat) (ps : list (list string)) (acc : list (string * ninfo))
   : res (list string * list (string * ninfo)) :=
